@@ -29,8 +29,8 @@ Unlimited == 0
 Dirs == 1..NDirs
 Absent == [st |-> "absent", ver |-> 0, mt |-> 0]
 None == [kind |-> "none"]
-VARIABLES now, fs, coll, stamp, ver, nobj, built, last, pinned, mods
-vars == <<now, fs, coll, stamp, ver, nobj, built, last, pinned, mods>>
+VARIABLES now, fs, coll, stamp, ver, nobj, built, last, pinned, mods, alias
+vars == <<now, fs, coll, stamp, ver, nobj, built, last, pinned, mods, alias>>
 
 Sec(t) == t \div TPS
 Cached(c) == {u \in Uris : c[u].kind # "none"}
@@ -39,21 +39,22 @@ Init == /\ now = 0 /\ fs = [d \in Dirs |-> [u \in Uris |-> Absent]]
         /\ ver = 0 /\ nobj = 0 /\ built = 0 /\ last = [op |-> "init"]
         /\ pinned = [u \in Uris |-> 0]
         /\ mods = [u \in Uris |-> None]      \* module files: the path depends on the URI only
+        /\ alias = [u \in Uris |-> None]     \* ghost: the file a put_template(u, file-backed template) entry stands for
 
 (* ---------------- environment ---------------- *)
 Tick == /\ now < MaxTick /\ now' = now + 1 /\ last' = [op |-> "tick"]
-        /\ UNCHANGED <<fs, coll, stamp, ver, nobj, built, pinned, mods>>
+        /\ UNCHANGED <<fs, coll, stamp, ver, nobj, built, pinned, mods, alias>>
 \* create or overwrite file u in directory d; mtime = current whole second;
 \* ok = FALSE writes a template that does not compile
 WriteFile(d, u, ok) ==
         /\ ver < MaxVer /\ ver' = ver + 1
         /\ fs' = [fs EXCEPT ![d][u] = [st |-> IF ok THEN "ok" ELSE "broken", ver |-> ver + 1, mt |-> Sec(now)]]
         /\ last' = [op |-> "write", d |-> d, u |-> u, ok |-> ok]
-        /\ UNCHANGED <<now, coll, stamp, nobj, built, pinned, mods>>
+        /\ UNCHANGED <<now, coll, stamp, nobj, built, pinned, mods, alias>>
 DeleteFile(d, u) ==
         /\ fs[d][u].st # "absent" /\ fs' = [fs EXCEPT ![d][u] = Absent]
         /\ last' = [op |-> "delete", d |-> d, u |-> u]
-        /\ UNCHANGED <<now, coll, stamp, ver, nobj, built, pinned, mods>>
+        /\ UNCHANGED <<now, coll, stamp, ver, nobj, built, pinned, mods, alias>>
 
 (* ---------------- the LRU (util.LRUCache) ---------------- *)
 \* Only the ORDER of LRU timestamps matters, so stamps are kept as ranks 1..n among the cached URIs
@@ -80,37 +81,42 @@ FirstDir(u) == IF \E d \in Dirs : fs[d][u].st # "absent"
 \* _load: construct from directory d; c0/s0 = collection and stamps when _load starts.
 \* With a module directory (Template._compile_from_file) an existing module file at least as new as
 \* the source is imported instead of compiling -- whatever the source says by now.
-Reuse(u, d) == ModDir /\ mods[u].kind # "none" /\ mods[u].mt >= fs[d][u].mt
-Load(u, d, c0, s0, op) ==
-  IF ~Reuse(u, d) /\ fs[d][u].st = "broken"
+Reuse(u, d, fn) == ModDir /\ mods[u].kind # "none" /\ mods[u].mt >= fs[d][fn].mt
+\* fn = the name of the source file in directory d (the URI itself, except for an entry that was placed
+\* with put_template under another URI than its own)
+Load(u, d, fn, c0, s0, op) ==
+  IF ~Reuse(u, d, fn) /\ fs[d][fn].st = "broken"
   THEN /\ coll' = c0 /\ stamp' = Norm(c0, s0)        \* except: self._collection.pop(uri, None); raise
        /\ last' = [op |-> op, u |-> u, res |-> "compile_error"] /\ UNCHANGED <<nobj, built, mods>>
-  ELSE LET m  == IF Reuse(u, d) THEN mods[u]
-                 ELSE [kind |-> "mod", ver |-> fs[d][u].ver, mt |-> Sec(now), ct |-> now, dir |-> d]
-           t  == [kind |-> "file", dir |-> d, ver |-> m.ver, ct |-> m.ct, obj |-> nobj + 1, gdir |-> m.dir]
+       /\ alias' = [alias EXCEPT ![u] = None]
+  ELSE LET m  == IF Reuse(u, d, fn) THEN mods[u]
+                 ELSE [kind |-> "mod", ver |-> fs[d][fn].ver, mt |-> Sec(now), ct |-> now, dir |-> d, fn |-> fn]
+           t  == [kind |-> "file", dir |-> d, fn |-> fn, ver |-> m.ver, ct |-> m.ct, obj |-> nobj + 1, gdir |-> m.dir, gfn |-> m.fn]
            s1 == [s0 EXCEPT ![u] = Top]
            c1 == ManageSize([c0 EXCEPT ![u] = t], s1)
        IN /\ coll' = c1 /\ stamp' = Norm(c1, s1)
           /\ nobj' = nobj + 1 /\ built' = built + 1
           /\ mods' = (IF ModDir THEN [mods EXCEPT ![u] = m] ELSE mods)
           /\ last' = [op |-> op, u |-> u, res |-> "tmpl", obj |-> nobj + 1, ver |-> m.ver]
+          /\ UNCHANGED alias
 GetCore(u, op) ==
   IF coll[u].kind # "none"
   THEN LET t == coll[u]
            s1 == Touch(u)
        IN IF ~FsChecks \/ t.kind # "file"            \* no checks, or template.filename is None
           THEN /\ last' = [op |-> op, u |-> u, res |-> "tmpl", obj |-> t.obj, ver |-> t.ver]
-               /\ stamp' = Norm(coll, s1) /\ UNCHANGED <<coll, nobj, built, mods>>
-          ELSE IF fs[t.dir][u].st = "absent"            \* os.stat fails: evict, TemplateLookupException
+               /\ stamp' = Norm(coll, s1) /\ UNCHANGED <<coll, nobj, built, mods, alias>>
+          ELSE IF fs[t.dir][t.fn].st = "absent"            \* os.stat fails: evict, TemplateLookupException
                THEN /\ coll' = [coll EXCEPT ![u] = None] /\ stamp' = Norm(coll', s1)
                     /\ last' = [op |-> op, u |-> u, res |-> "lookup_exc"] /\ UNCHANGED <<nobj, built, mods>>
-               ELSE IF t.ct >= TPS * fs[t.dir][u].mt   \* module._modified_time >= st_mtime
+                    /\ alias' = [alias EXCEPT ![u] = None]
+               ELSE IF t.ct >= TPS * fs[t.dir][t.fn].mt   \* module._modified_time >= st_mtime
                     THEN /\ last' = [op |-> op, u |-> u, res |-> "tmpl", obj |-> t.obj, ver |-> t.ver]
-                         /\ stamp' = Norm(coll, s1) /\ UNCHANGED <<coll, nobj, built, mods>>
-                    ELSE Load(u, t.dir, [coll EXCEPT ![u] = None], s1, op)   \* pop, reload from the SAME file
+                         /\ stamp' = Norm(coll, s1) /\ UNCHANGED <<coll, nobj, built, mods, alias>>
+                    ELSE Load(u, t.dir, t.fn, [coll EXCEPT ![u] = None], s1, op)   \* pop, reload from the SAME file, under the SAME uri
   ELSE IF FirstDir(u) = 0
-       THEN /\ last' = [op |-> op, u |-> u, res |-> "toplevel_exc"] /\ UNCHANGED <<coll, stamp, nobj, built, mods>>
-       ELSE Load(u, FirstDir(u), coll, stamp, op)
+       THEN /\ last' = [op |-> op, u |-> u, res |-> "toplevel_exc"] /\ UNCHANGED <<coll, stamp, nobj, built, mods, alias>>
+       ELSE Load(u, FirstDir(u), u, coll, stamp, op)
 Get(u) == GetCore(u, "get") /\ UNCHANGED <<now, fs, ver, pinned>>
 Has(u) == GetCore(u, "has") /\ UNCHANGED <<now, fs, ver, pinned>>     \* has_template = get_template, result reduced to a boolean
 \* put_string (byLookup = TRUE: the Template is constructed by the lookup) and put_template
@@ -122,12 +128,24 @@ Put(u, byLookup) ==
      IN /\ coll' = c1 /\ stamp' = Norm(c1, s1)
         /\ nobj' = nobj + 1 /\ built' = (IF byLookup THEN built + 1 ELSE built)
         /\ last' = [op |-> IF byLookup THEN "put" ELSE "puttmpl", u |-> u, obj |-> nobj + 1]
-        /\ pinned' = [pinned EXCEPT ![u] = nobj + 1]
+        /\ pinned' = [pinned EXCEPT ![u] = nobj + 1] /\ alias' = [alias EXCEPT ![u] = None]
   /\ UNCHANGED <<now, fs, mods>>
+\* put_template(u, T) where T = Template(filename = <directory d>/v, uri = v) was made by the application:
+\* a file-backed entry whose own uri differs from the one it is registered under
+PutFile(u, d, v) ==
+  /\ AllowPut /\ fs[d][v].st = "ok" /\ ~ModDir
+  /\ LET t == [kind |-> "file", dir |-> d, fn |-> v, ver |-> fs[d][v].ver, ct |-> now, obj |-> nobj + 1, gdir |-> d, gfn |-> v]
+         s1 == StoreStamp(u)
+         c1 == ManageSize([coll EXCEPT ![u] = t], s1)
+     IN /\ coll' = c1 /\ stamp' = Norm(c1, s1) /\ nobj' = nobj + 1
+        /\ last' = [op |-> "putfile", u |-> u, d |-> d, v |-> v, obj |-> nobj + 1]
+        /\ pinned' = [pinned EXCEPT ![u] = 0] /\ alias' = [alias EXCEPT ![u] = [kind |-> "alias", d |-> d, fn |-> v]]
+  /\ UNCHANGED <<now, fs, mods, built, ver>>
 
 Next == \/ Tick
         \/ \E d \in Dirs, u \in Uris : WriteFile(d, u, TRUE) \/ WriteFile(d, u, FALSE) \/ DeleteFile(d, u)
         \/ \E u \in Uris : Get(u) \/ Has(u) \/ Put(u, TRUE) \/ Put(u, FALSE)
+        \/ \E u, v \in Uris, d \in Dirs : PutFile(u, d, v)
 Spec == Init /\ [][Next]_vars
 
 (* ---------------- the property (C14) ---------------- *)
@@ -135,25 +153,25 @@ IsGet == last.op \in {"get", "has"}
 \* freshness: if the answer is the cached file template and its file is at least one whole second
 \* newer than the compile moment, the answer carries the current content
 Fresh == (IsGet /\ last.res = "tmpl" /\ FsChecks /\ coll[last.u].kind = "file" /\ coll[last.u].obj = last.obj) =>
-           LET f == fs[coll[last.u].dir][last.u] IN
+           LET f == fs[coll[last.u].dir][coll[last.u].fn] IN
              (f.st = "ok" /\ TPS * f.mt >= coll[last.u].ct + TPS) => last.ver = f.ver
 SizeBound == Size = Unlimited \/ 2 * Cardinality(Cached(coll)) <= 3 * Size
 \* while nothing on disk is newer than the cached version, the very same object comes back, no recompilation
 StableIdentity == [][\A u \in Uris :
-      (IsGet' /\ last'.u = u /\ coll[u].kind = "file" /\ FsChecks /\ fs[coll[u].dir][u].st # "absent"
-        /\ coll[u].ct >= TPS * fs[coll[u].dir][u].mt)
+      (IsGet' /\ last'.u = u /\ coll[u].kind = "file" /\ FsChecks /\ fs[coll[u].dir][coll[u].fn].st # "absent"
+        /\ coll[u].ct >= TPS * fs[coll[u].dir][coll[u].fn].mt)
       => (last'.res = "tmpl" /\ last'.obj = coll[u].obj /\ built' = built)]_vars
 FirstDirWins == [][\A u \in Uris :
       (IsGet' /\ last'.u = u /\ coll[u].kind = "none" /\ FirstDir(u) # 0 /\ fs[FirstDir(u)][u].st = "ok"
-        /\ ~Reuse(u, FirstDir(u)))
+        /\ ~Reuse(u, FirstDir(u), u))
       => (last'.res = "tmpl" /\ last'.ver = fs[FirstDir(u)][u].ver)]_vars
 \* ... and whatever is served for a URI was generated from the file it is served for (a module file
 \* that is reused must stem from that very source file)
-ServedFromOwnFile == \A u \in Uris : coll[u].kind = "file" => coll[u].gdir = coll[u].dir
+ServedFromOwnFile == \A u \in Uris : coll[u].kind = "file" => (coll[u].gdir = coll[u].dir /\ coll[u].gfn = coll[u].fn)
 MissRaisesTopLevel == [][\A u \in Uris :
       (IsGet' /\ last'.u = u /\ coll[u].kind = "none" /\ FirstDir(u) = 0) => last'.res = "toplevel_exc"]_vars
 VanishedRaisesLookup == [][\A u \in Uris :
-      (IsGet' /\ last'.u = u /\ FsChecks /\ coll[u].kind = "file" /\ fs[coll[u].dir][u].st = "absent")
+      (IsGet' /\ last'.u = u /\ FsChecks /\ coll[u].kind = "file" /\ fs[coll[u].dir][coll[u].fn].st = "absent")
       => (last'.res = "lookup_exc" /\ coll'[u].kind = "none")]_vars
 NoChecksSticky == [][\A u \in Uris :
       (~FsChecks /\ IsGet' /\ last'.u = u /\ coll[u].kind # "none") => (last'.res = "tmpl" /\ last'.obj = coll[u].obj)]_vars
@@ -164,5 +182,7 @@ RecoverAfterFailure == [][(IsGet' /\ last'.res = "compile_error") =>
 \* request would load (FirstDirWins covers it because an evicted URI is simply an uncached one), and
 \* put_string / put_template entries are served under their URI -- for ever:
 PutServed == (IsGet /\ pinned[last.u] # 0) => (last.res = "tmpl" /\ last.obj = pinned[last.u])
-View == <<now, fs, coll, stamp, ver, last, pinned, mods>>
+\* ... including a file-backed template registered under another URI: as long as its file is there
+PutFileServed == (IsGet /\ alias[last.u].kind # "none" /\ fs[alias[last.u].d][alias[last.u].fn].st # "absent") => last.res \in {"tmpl", "compile_error"}
+View == <<now, fs, coll, stamp, ver, last, pinned, mods, alias>>
 =============================================================================
